@@ -303,6 +303,38 @@ def keypadDue (kc : Int) (deckpam decckm : Bool) : Option Str :=
     | some (_, nav) => (xtermLegacy nav 0 0 decckm).map renderSeq
     | none => none
 
+/-- `KeyKeyPadBegin` (the 5 key of the keypad without NumLock; xterm's Begin key): `CSI E`, under DECCKM `SS3 E`,
+    with modifiers `CSI 1 ; m E`. -/
+def keypadBeginLegacy (mods : Nat) (decckm : Bool) : Option Seq :=
+  if mods ≥ 8 then none
+  else if mods = 0 then some (cursorSeq 69 decckm)
+  else some (.csi [[1], [(mods : Int) + 1]] 69)
+
+/-- The key a keypad key stands for — what its legend says: the character (Enter: the Enter key), or the cursor /
+    editing key.  `none`: not a keypad key with a legend (`KeyKeyPadBegin` is a key of its own). -/
+def keypadStandsFor (kc : Int) : Option Int :=
+  match keypadChars.find? (·.1 = kc) with
+  | some (_, ch, _) => some ch
+  | none => (keypadNav.find? (·.1 = kc)).map (·.2)
+
+/-- **Application keypad mode** (xterm): an *unmodified* digit / operator / Enter key of the keypad sends `SS3` + its
+    final byte when the child selected DECKPAM — unless Num Lock is on, which overrides the keypad mode (xterm's
+    `numLock` resource, the default).  `none`: application mode does not apply to this event. -/
+def keypadApplication (k : Key) (deckpam : Bool) : Option Str :=
+  if deckpam = true ∧ k.mods &&& (shiftBit ||| altBit ||| ctrlBit ||| numBit) = 0 then
+    (keypadChars.find? (·.1 = k.keycode)).map fun e => [27, 79, e.2.2]
+  else none
+
+/-- **Keypad clause**: what the event of a keypad key is judged as.  `inl bytes`: exactly these bytes are due
+    (application mode).  `inr k'`: the event is judged as the event `k'` of the key the keypad key stands for
+    (numeric mode, Num Lock, modified keys, the navigation legends): in the legacy protocol a keypad key in numeric
+    mode *is* that key — nothing on the wire distinguishes them — so "arrives intact" means the ordinary clauses
+    hold for `k'`.  `none`: not a keypad key (or `KeyKeyPadBegin`, which has reports of its own). -/
+def keypadJudgedAs (k : Key) (deckpam : Bool) : Option (Str ⊕ Key) :=
+  match keypadApplication k deckpam with
+  | some b => some (.inl b)
+  | none => (keypadStandsFor k.keycode).map fun l => .inr { k with keycode := l }
+
 /-! ## Paste -/
 def pasteStartSeq : Seq := .csi [[200]] 126
 def pasteEndSeq : Seq := .csi [[201]] 126
